@@ -499,6 +499,12 @@ func (g *advGen) txGen(r *kernel.Run, _ *kernel.Rng) *kernel.Tx {
 	for tries := 0; tries < 5; tries++ {
 		msg, signer, route := g.genMsg(r)
 		note := sdk.MsgTypeURL(msg)
+		if route == "direct" && signedByKeylessModuleAccount(msg) {
+			// the message router is reached on behalf of an account by x/gov (its own account), authz, group or ICA - never
+			// on behalf of a module account other than gov, which has no key and grants nothing: such a message can only
+			// arrive as a transaction, where the signature check refuses it
+			route = ""
+		}
 		if route == "" && g.rng.Intn(8) == 0 {
 			// the same message wrapped in an authz MsgExec signed by the grantee: x/authz hands the inner message to its
 			// handler without ValidateBasic and asks it for its signers first
@@ -768,4 +774,25 @@ func minterParamsSane(p mintertypes.Params) (ok bool) {
 		}
 	}
 	return true
+}
+
+var keylessModuleAccounts = []string{"cfevesting", "cfeminter", "distributor_main_account", "fee_collector", "bonded_tokens_pool",
+	"not_bonded_tokens_pool", "distribution", "transfer", "interchainaccounts", "mint", "validators_rewards_collector",
+	"green_energy_booster_collector", "governance_booster_collector"}
+
+// signedByKeylessModuleAccount: one of the message's signers is a module account other than gov.
+func signedByKeylessModuleAccount(msg sdk.Msg) (yes bool) {
+	defer func() {
+		if recover() != nil {
+			yes = false
+		}
+	}()
+	for _, s := range msg.GetSigners() {
+		for _, name := range keylessModuleAccounts {
+			if s.Equals(kernel.ModuleAddr(name)) {
+				return true
+			}
+		}
+	}
+	return false
 }
